@@ -113,14 +113,16 @@ func runC15(c *Ctx) {
 	// ------------------------------------------------------------------ O2
 	if ra := c.Fn("C15.O2", "(*websocket.Conn).readAll"); ra != nil {
 		fi := c.P.Info(ra)
-		// the read count
+		// the read count(s)
 		var n ssa.Value
+		counts := map[ssa.Value]bool{}
 		for _, cs := range c.P.Calls(ra, nil) {
 			if cs.Common.IsInvoke() && cs.Common.Method.Name() == "Read" {
 				if refs := cs.Value().Referrers(); refs != nil {
 					for _, r := range *refs {
 						if e, ok := r.(*ssa.Extract); ok && e.Index == 0 {
 							n = e
+							counts[e] = true
 						}
 					}
 				}
@@ -143,7 +145,7 @@ func runC15(c *Ctx) {
 						continue
 					}
 					hb, ok := ir.Resolve(sl.High).(*ssa.BinOp)
-					if !ok || hb.Op != token.ADD || !(ir.Resolve(hb.X) == n || ir.Resolve(hb.Y) == n) {
+					if !ok || hb.Op != token.ADD || !(counts[ir.Resolve(hb.X)] || counts[ir.Resolve(hb.Y)]) {
 						continue
 					}
 					bad = ""
@@ -164,6 +166,23 @@ func runC15(c *Ctx) {
 					for x := range vis {
 						if r, isR := x.(*ssa.Return); isR {
 							if !ir.IsNilConst(ir.RetVals(r)[0]) {
+								// 'one more byte would be too much' is not 'too much': the buffer may be
+								// returned after a further read, made behind this test, delivered nothing
+								probedEmpty := fi.HasFact(r, func(ft ir.Fact) bool {
+									cmp, ok := ir.DecodeIntCmp(ft.Cond)
+									if !ok || cmp.Holds(1) == ft.Truth || cmp.Holds(0) != ft.Truth {
+										return false
+									}
+									e, ok := ir.Resolve(cmp.Expr).(*ssa.Extract)
+									if !ok || e.Index != 0 {
+										return false
+									}
+									call, ok := e.Tuple.(*ssa.Call)
+									return ok && call.Call.IsInvoke() && call.Call.Method.Name() == "Read" && fi.Dominates(i, call)
+								})
+								if probedEmpty {
+									continue
+								}
 								bad = "the too-large edge at " + c.Pos(i) + " still returns the buffer"
 							}
 							if _, kind := c.retErr(fi, r); kind != "nonnil" {
